@@ -45,6 +45,8 @@ impl FreeOrder {
 pub struct Workload {
     /// run once before the repetitions start (it frees everything it allocates): the heap layout the workload starts from
     pub warmup: Vec<Op>,
+    /// allocations made once after the warm-up and never freed: long-lived blocks that stay across all repetitions
+    pub pins: Vec<Op>,
     pub ops: Vec<Op>,
     pub order: FreeOrder,
     pub policy: Policy,
@@ -52,7 +54,7 @@ pub struct Workload {
 
 impl Workload {
     pub fn to_json(&self) -> Value {
-        json!({"phase":"lasso","op":"lasso","warmup": show_ops(&self.warmup), "workload": show_ops(&self.ops), "free_order": self.order.name(), "policy": self.policy.letter().to_string()})
+        json!({"phase":"lasso","op":"lasso","warmup": show_ops(&self.warmup), "pins": show_ops(&self.pins), "workload": show_ops(&self.ops), "free_order": self.order.name(), "policy": self.policy.letter().to_string()})
     }
     pub fn from_json(v: &Value) -> Workload {
         let ops = match v["workload"].as_array() {
@@ -64,6 +66,7 @@ impl Workload {
         };
         Workload {
             warmup: parse_ops(&v["warmup"]),
+            pins: parse_ops(&v["pins"]),
             ops,
             order: FreeOrder::parse(v["free_order"].as_str().unwrap_or("fifo")),
             policy: v["policy"].as_str().and_then(|s| s.chars().next()).and_then(Policy::from_letter).unwrap_or(Policy::TopDown),
@@ -71,7 +74,13 @@ impl Workload {
     }
     pub fn peak_live(&self) -> usize {
         // the warm-up is part of the history: its peak counts too
-        Self::peak_of(&self.warmup, FreeOrder::Fifo).max(Self::peak_of(&self.ops, self.order))
+        {
+            let pinned: usize = self.pins.iter().map(|o| match *o {
+                Op::Malloc { size, .. } | Op::Calloc { size, .. } => size,
+                _ => 0,
+            }).sum();
+            Self::peak_of(&self.warmup, FreeOrder::Fifo).max(pinned + Self::peak_of(&self.ops, self.order))
+        }
     }
     fn peak_of(ops: &[Op], order: FreeOrder) -> usize {
         let mut slots: Vec<Option<usize>> = Vec::new();
@@ -402,6 +411,16 @@ pub fn run_workload(w: &mut World, wl: &Workload, lim: Limits, r: &mut Report, v
             println!("  after warm-up: footprint {} regions {:x?}", w.k.footprint, w.k.regions);
         }
     }
+    if !wl.pins.is_empty() {
+        match run_ops(w, &wl.pins, FreeOrder::Fifo, false) {
+            Ok(Some(_)) if w.k.anomalies.is_empty() => {}
+            other => {
+                clear_case();
+                r.violation("C04:lasso:warm-up-failed", format!("the long-lived allocations of workload {case} failed: {:?}", other.map(|x| x.map(|v| v.len()))), case.clone());
+                return None;
+            }
+        }
+    }
     let mut cheap_seen: HashSet<u64> = HashSet::new();
     let mut full_at: HashMap<u64, Vec<(usize, u64)>> = HashMap::new();
     let mut res = LassoResult { stop: "round-cap", ..Default::default() };
@@ -704,7 +723,7 @@ pub fn alloc_family(th: bool) -> Vec<Workload> {
                 continue; // identical to fifo
             }
             for p in ALL_POLICIES {
-                v.push(Workload { warmup: vec![], ops: idx.iter().map(|&i| Op::Malloc { size: al[i].0, align: al[i].1 }).collect(), order, policy: p });
+                v.push(Workload { warmup: vec![], pins: vec![], ops: idx.iter().map(|&i| Op::Malloc { size: al[i].0, align: al[i].1 }).collect(), order, policy: p });
             }
         }
     });
@@ -776,7 +795,56 @@ pub fn seq_family(th: bool) -> Vec<Workload> {
                 continue;
             }
             for &p in &al.policies {
-                v.push(Workload { warmup: vec![], ops: s.clone(), order, policy: p });
+                v.push(Workload { warmup: vec![], pins: vec![], ops: s.clone(), order, policy: p });
+            }
+        }
+    }
+    v
+}
+
+/// Family "aligned-realloc": an over-aligned block is reallocated (shrink and grow), alone or with a second
+/// block behind it, then everything is freed.
+pub fn aligned_realloc_family() -> Vec<Workload> {
+    let mut v = Vec::new();
+    for a in [64usize, 4096] {
+        for s in [6000usize, 70_000, 1 << 20] {
+            for t in [1000usize, 4096, s / 2, 2 * s] {
+                for with_neighbour in [false, true] {
+                    for order in [FreeOrder::Fifo, FreeOrder::Lifo] {
+                        if !with_neighbour && order == FreeOrder::Lifo {
+                            continue;
+                        }
+                        for p in [Policy::TopDown, Policy::Below, Policy::Disjoint] {
+                            let mut ops = vec![Op::Malloc { size: s, align: a }];
+                            if with_neighbour {
+                                ops.push(Op::Malloc { size: 300, align: 8 });
+                            }
+                            ops.push(Op::Realloc { slot: 0, size: t });
+                            v.push(Workload { warmup: vec![], pins: vec![], ops, order, policy: p });
+                        }
+                    }
+                }
+            }
+        }
+    }
+    v
+}
+
+/// Family "pinned-big": nothing / a small block stays allocated for good; each repetition allocates and
+/// frees one or two blocks of 8, 24, 40 MiB (24 and 40 MiB fall into the last tree bin).
+pub fn pinned_big_family() -> Vec<Workload> {
+    let m = |size| Op::Malloc { size, align: 8 };
+    let big = [8usize << 20, 24 << 20, 40 << 20];
+    let mut v = Vec::new();
+    for pins in [vec![], vec![m(24)], vec![m(1000)]] {
+        for p in [Policy::TopDown, Policy::Below, Policy::Disjoint] {
+            for &a in &big {
+                v.push(Workload { warmup: vec![], pins: pins.clone(), ops: vec![m(a)], order: FreeOrder::Fifo, policy: p });
+                for &b in &big {
+                    for order in [FreeOrder::Fifo, FreeOrder::Lifo] {
+                        v.push(Workload { warmup: vec![], pins: pins.clone(), ops: vec![m(a), m(b)], order, policy: p });
+                    }
+                }
             }
         }
     }
@@ -943,7 +1011,7 @@ pub fn explore_layouts(th: bool, policies: &[Policy], depth: usize, max_layouts:
                     for ep in &eps {
                         let mut ops = warm.clone();
                         ops.extend_from_slice(ep);
-                        let wl = Workload { warmup: vec![], ops: ops.clone(), order: FreeOrder::Fifo, policy: *p };
+                        let wl = Workload { warmup: vec![], pins: vec![], ops: ops.clone(), order: FreeOrder::Fifo, policy: *p };
                         set_case(&wl.to_json().to_string());
                         let key = layout_key(&mut w, *p, &ops, tops);
                         clear_case();
@@ -1053,9 +1121,11 @@ pub fn lasso(args: &Args) -> Report {
             let fast = limits(th, true);
             let brute = limits(th, false);
             let mut all: Vec<(bool, Workload)> = alloc_family(th).into_iter().map(|w| (true, w)).chain(seq_family(th).into_iter().map(|w| (false, w))).collect();
+            all.extend(aligned_realloc_family().into_iter().map(|w| (false, w)));
+            all.extend(pinned_big_family().into_iter().map(|w| (false, w)));
             for (p, warm) in &layouts {
                 for (ops, order) in samebin_family() {
-                    all.push((false, Workload { warmup: warm.clone(), ops, order, policy: *p }));
+                    all.push((false, Workload { warmup: warm.clone(), pins: vec![], ops, order, policy: *p }));
                 }
                 if th && !warm.is_empty() {
                     // thorough: the quick alloc family from every non-empty start layout as well
@@ -1098,7 +1168,9 @@ pub fn lasso(args: &Args) -> Report {
     r.merge(pre);
     let sa = seq_alpha(th);
     r.rule = format!(
-        "every workload of three families, each generated once. 'same-bin' ({n_samebin} workloads): from EVERY one of {n_layouts} distinct start layouts x the 96 workloads \
+        "every workload of five families, each generated once. 'aligned-realloc' ({} workloads): malloc(s in {{6000,70000,1Mi}}, align 64/4096) [+ malloc(300)], realloc to {{1000,4096,s/2,2s}}, \
+         free all, policies T/B/D. 'pinned-big' ({} workloads): no / a 24-byte / a 1000-byte block allocated once and kept for good, each repetition allocates and frees one or two blocks of \
+         8/24/40 MiB, policies T/B/D. 'same-bin' ({n_samebin} workloads): from EVERY one of {n_layouts} distinct start layouts x the 96 workloads \
          'allocate two of three sizes X<Y<S of one tree bin (ladder {SAME_BIN_LADDER:?}) with 300-byte pins, free both in either order, request the third, free all fifo/lifo'; the start \
          layouts are found by breadth-first search from the empty heap over episodes 'allocate one or two blocks of {LAYOUT_SIZES:?}, free them in either order' (depth {ldepth}, policies {}, \
          one representative per layout key = shape of the mapping table, mapping and size class of top, and for the probe requests {PROBES:?} whether and where they are served from held memory; limit {lmax}); the warm-up's peak counts as live bytes for the bound (thorough: three-block episodes too, and the quick alloc family from every non-empty layout). 'alloc': every sequence of 1..={} allocations from {:?} [= every multiset in every allocation order] x free order \
@@ -1109,6 +1181,8 @@ pub fn lasso(args: &Args) -> Report {
          after an earlier repetition. Repetitions in which only the release_checks countdown changes are skipped (three consecutive identical quiet repetitions observed first); the alloc family \
          is {} ALSO run without that shortcut (cap {} repetitions, > {} release_checks periods of {MAX_RELEASE_CHECK_RATE}) and the two runs' kernel-call traces compared \
          (traces_validated_against_impl). A run stops at once when the footprint exceeds the allowed bound (3 x peak live bytes rounded up to 64 KiB + 4 MiB). states = distinct state fingerprints, transitions = repetitions executed.",
+        aligned_realloc_family().len(),
+        pinned_big_family().len(),
         lpol.iter().map(|p| p.letter()).collect::<String>(),
         if th { 4 } else { 3 },
         alloc_alphabet(th),
